@@ -91,7 +91,8 @@ def cases(tier, seed):
         for vs in itertools.product(*[range(len(KEYS[k])) for k in prefix_keys]):
             for route in ('response', 'register'):
                 out.append({'k': 'chunk', 'p': list(vs), 'route': route})
-    kinds = ['A', 'B', 'C', 'U', 'V']       # U: unknown stage; V: a metric whose type is a number this client does not know (open enum)
+    kinds = ['A', 'B', 'C', 'U', 'V', 'N']  # U: unknown stage; V: a metric whose type is a number this client does not know (open enum);
+    #                                         N: a method tracepoint without a name, given by the same line as A and B
     for n in (1, 2, 3):
         for lst in itertools.product(kinds, repeat=n):
             out.append({'k': 'list', 'l': list(lst)})
@@ -298,6 +299,8 @@ def check_list(ctx, desc):
             line = L2
         if kind == 'U':
             args['stage'] = 'bogus'
+        if kind == 'N':
+            args['stage'] = 'method_start'
         pb = PB(ID='tp%d' % n, path='c11prog.py', line_number=line, args=args, watches=['v + %d' % n])
         if kind == 'V':
             from deepproto.proto.tracepoint.v1.tracepoint_pb2 import Metric
@@ -318,14 +321,15 @@ def check_list(ctx, desc):
     if run.escaped or run.exc is not None:
         ctx.violation('C11/list-handler-raised', f'response {lst}: {run.escaped[:1] or run.exc!r}', desc)
         return
-    got = sorted((s.tracepoint.id, tuple(w.expression for w in s.watches if w.source == 'WATCH'), s.log_msg)
+    got = sorted((s.tracepoint.id, tuple(w.expression for w in s.watches if w.source == 'WATCH'), s.log_msg, p['ev'][:2])
                  for p in per for s in p['snaps'])
     exp = []
     for n, kind in enumerate(lst):
         if kind in 'UV':
             continue
         nh = 1 if kind == 'B' else 2
-        exp += [('tp%d' % n, ('v + %d' % n,), '[deep] L%d' % n)] * nh
+        where = ('call', 'M') if kind == 'N' else ('line', L2 if kind == 'C' else L1)      # each acts at its own kind of location
+        exp += [('tp%d' % n, ('v + %d' % n,), '[deep] L%d' % n, where)] * nh
     exp.sort()
     if len(set(lst) - {'U', 'V'}) >= 1 and len(lst) >= 2:
         ctx.nt(('list', tuple(lst)))
